@@ -510,17 +510,18 @@ class Family:
             return tuple(x._row for x in v)
         return None
 
-    def _apply_filter(self, fexpr, rows: Tuple[Row, ...], fn: FuncInfo) -> Tuple[Row, ...]:
+    def _apply_filter(self, fexpr, rows: Tuple[Row, ...], fn: FuncInfo, st: Optional[FamState] = None) -> Tuple[Row, ...]:
         if not hasattr(self, "_filter_cache"):
             self._filter_cache = {}
-        ck = (id(fexpr), tuple(id(r) for r in rows))
+        flags = tuple(sorted((k, v) for k, v in (st.flags.items() if st is not None else ()) if v is not None))
+        ck = (id(fexpr), tuple(id(r) for r in rows), flags)
         if ck in self._filter_cache:
             return self._filter_cache[ck]
-        res = self._apply_filter_uncached(fexpr, rows, fn)
+        res = self._apply_filter_uncached(fexpr, rows, fn, dict(flags))
         self._filter_cache[ck] = res
         return res
 
-    def _apply_filter_uncached(self, fexpr, rows: Tuple[Row, ...], fn: FuncInfo) -> Tuple[Row, ...]:
+    def _apply_filter_uncached(self, fexpr, rows: Tuple[Row, ...], fn: FuncInfo, flags: Optional[dict] = None) -> Tuple[Row, ...]:
         pred = None
         if isinstance(fexpr, ast.comprehension):
             # (s for s in <table> if c1 if c2): the conjunction of the conditions
@@ -539,9 +540,18 @@ class Family:
         if pred is None:
             raise AnalysisError("filter %s is not understood (%s)" % (norm(fexpr), fn.loc(fexpr)))
         out = []
+        env0 = {}
+        if flags and any(isinstance(x, ast.Name) and x.id == "self" for x in ast.walk(pred)):
+            # a predicate method that consults the capability flags of the object: their current (definite) values
+            class _SelfFlags:
+                pass
+            me = _SelfFlags()
+            for k, v in flags.items():
+                setattr(me, k, v)
+            env0["self"] = me
         for r in rows:
             try:
-                keep = self.prog.consteval(pred, mod, {param: RowView(r)})
+                keep = self.prog.consteval(pred, mod, dict(env0, **{param: RowView(r)}))
             except NotConst as e:
                 raise AnalysisError("filter predicate %s cannot be evaluated on %s: %s" % (norm(pred), r, e))
             if keep:
@@ -566,6 +576,20 @@ class Family:
             # result = self._sensors + ...
             if isinstance(tgt, ast.Name):
                 te = self._table_expr(value, st, loc)
+                if te is None:
+                    # kept = tuple(filter(pred, <table>)) / tuple(s for s in <table> if ...): a filtered table held in a local
+                    f = src = None
+                    if isinstance(value, ast.Call) and isinstance(value.func, ast.Name) and value.func.id == "tuple" and value.args \
+                            and isinstance(value.args[0], ast.Call) and isinstance(value.args[0].func, ast.Name) and value.args[0].func.id == "filter" \
+                            and len(value.args[0].args) == 2:
+                        f, src = value.args[0].args
+                    elif _comprehension_filter(value) is not None:
+                        f = _comprehension_filter(value)
+                        src = f.iter
+                    if f is not None:
+                        ts = self._table_expr(src, st, loc)
+                        if ts is not None and len(ts) == 1:
+                            te = [(ts[0][0], self._apply_filter(f, ts[0][1], fn, st))]
                 if te is not None:
                     tv = dict(loc.get("tablevars", {}))
                     tv[tgt.id] = te
@@ -605,14 +629,14 @@ class Family:
                     te = self._table_expr(src, st, loc)
                     if te is None or len(te) != 1:
                         raise AnalysisError("filtered source %s is not a known table (%s)" % (norm(src), fn.loc(node)))
-                    st.tables[attr] = self._apply_filter(f, te[0][1], fn)
+                    st.tables[attr] = self._apply_filter(f, te[0][1], fn, st)
                     st.versions[attr] = st.versions.get(attr, 0) + 1
                 elif _comprehension_filter(value) is not None:
                     gen = _comprehension_filter(value)
                     te = self._table_expr(gen.iter, st, loc)
                     if te is None or len(te) != 1:
                         raise AnalysisError("filtered source %s is not a known table (%s)" % (norm(gen.iter), fn.loc(node)))
-                    st.tables[attr] = self._apply_filter(gen, te[0][1], fn)
+                    st.tables[attr] = self._apply_filter(gen, te[0][1], fn, st)
                     st.versions[attr] = st.versions.get(attr, 0) + 1
                 else:
                     te = self._table_expr(value, st, loc)
